@@ -344,3 +344,66 @@ pub broadcast proof fn lemma_alt_lang_perm_b(s: Seq<Expression>, t: Seq<Expressi
     ensures alt_lang(s) == alt_lang(t)
 { lemma_alt_lang_perm(s, t); }
 pub uninterp spec fn charset_spec(e: Expression) -> Set<char>;
+
+pub proof fn lemma_alt_lang_empty()
+    ensures alt_lang(Seq::<Expression>::empty()) == ISet::<Word>::empty()
+{}
+pub proof fn lemma_alt_lang_push(s: Seq<Expression>, e: Expression)
+    ensures alt_lang(s.push(e)) == alt_lang(s).union(lang(e))
+    decreases s.len()
+{
+    lemma_alt_lang_empty();
+    if s.len() == 0 {
+        assert(s.push(e).drop_first() =~= Seq::<Expression>::empty());
+        assert(s =~= Seq::<Expression>::empty());
+        assert(alt_lang(s.push(e)) =~= alt_lang(s).union(lang(e)));
+    } else {
+        lemma_alt_lang_push(s.drop_first(), e);
+        assert(s.push(e).drop_first() =~= s.drop_first().push(e));
+        assert(alt_lang(s.push(e)) =~= alt_lang(s).union(lang(e)));
+    }
+}
+pub proof fn lemma_alt_take_step(s: Seq<Expression>, k: int)
+    requires 0 <= k < s.len()
+    ensures alt_lang(s.take(k + 1)) == alt_lang(s.take(k)).union(lang(s[k]))
+{
+    assert(s.take(k + 1) =~= s.take(k).push(s[k]));
+    lemma_alt_lang_push(s.take(k), s[k]);
+}
+
+pub proof fn lemma_rev_take(v: Seq<Grapheme>, n: int)
+    requires 0 <= n <= v.len()
+    ensures v.reverse().take(n).reverse() =~= v.subrange(v.len() - n, v.len() as int)
+{
+    let l = v.reverse().take(n).reverse();
+    let r = v.subrange(v.len() - n, v.len() as int);
+    assert(l.len() == r.len());
+    assert forall|i: int| 0 <= i < l.len() implies l[i] == r[i] by {
+        assert(l[i] == v.reverse().take(n)[n - 1 - i]);
+        assert(v.reverse()[n - 1 - i] == v[v.len() - 1 - (n - 1 - i)]);
+    }
+}
+
+// length, in graphemes, of the words of an expression whose words all have the same length; for an alternation: of its first option
+// (new_alternation sorts the options by descending length, so that is the longest one -- the sort key of C08's ordering mechanism)
+pub open spec fn wlen(e: Expression) -> nat
+    decreases e
+{
+    match e {
+        Expression::Alternation(opts, _, _, _) => if opts@.len() > 0 { wlen(opts@[0]) } else { 0 },
+        Expression::CharacterClass(_, _) => 1,          // a class matches exactly one character
+        Expression::Concatenation(a, b, _, _, _) => wlen(*a) + wlen(*b),
+        Expression::Literal(c, _, _) => c.graphemes@.len(),
+        Expression::Repetition(x, _, _, _, _) => wlen(*x),
+    }
+}
+pub open spec fn alts_nonempty(e: Expression) -> bool
+    decreases e
+{
+    match e {
+        Expression::Alternation(opts, _, _, _) => opts@.len() > 0 && alts_nonempty(opts@[0]),
+        Expression::Concatenation(a, b, _, _, _) => alts_nonempty(*a) && alts_nonempty(*b),
+        Expression::Repetition(x, _, _, _, _) => alts_nonempty(*x),
+        _ => true,
+    }
+}
